@@ -1,4 +1,295 @@
-import NriModel.Basic
-/-! Property theorems for C15 — placeholder until the model is written. -/
+import NriModel.Stub
+import NriModel.Registration
+import NriModel.Lemmas.StubMask
+import NriModel.Lemmas.Stub
+/-!
+Property C15 — the stub subscribes exactly the implemented events and dispatches faithfully.
+
+All statements are about `Nri.Stub` (model of pkg/stub/stub.go) and quantify over every
+plugin type `p : Plugin` (every subset of the thirteen event handlers × the three event-less
+ones), every plugin behaviour `b`, every payload type `β` and every message content.
+-/
 namespace Nri.Props.C15
+open Nri Nri.Events Nri.Stub Nri.Lemmas.StubMask Nri.Lemmas.Stub
+
+/-- The subscription mask is the plugin's handler set and nothing else: it is the thirteen
+    handler bits zero-extended to the 32-bit mask. -/
+theorem C15_mask_eq (p : Plugin) : subscribe p = p.ev.setWidth 32 := subscribe_eq p
+
+/-- Event `e` (any number ≥ 1, also those beyond the defined thirteen) is subscribed iff it
+    is one of the thirteen and the plugin type has its handler. -/
+theorem C15_mask (p : Plugin) (e : Nat) (h1 : 1 ≤ e) :
+    isSet (subscribe p) e = true ↔ e ≤ 13 ∧ p.ev.getLsbD (e - 1) = true := by
+  rw [isSet_eq_getLsbD, subscribe_eq, BitVec.getLsbD_setWidth]
+  constructor
+  · intro h
+    simp only [Bool.and_eq_true, decide_eq_true_eq] at h
+    have := BitVec.lt_of_getLsbD h.2
+    exact ⟨by omega, h.2⟩
+  · intro ⟨h13, hb⟩
+    simp only [Bool.and_eq_true, decide_eq_true_eq]
+    exact ⟨by omega, hb⟩
+
+/-- The same, by handler slot: the bit of event `e` is set iff the plugin implements the
+    interface that handles `e`. -/
+theorem C15_mask_slot (p : Plugin) (e : Nat) (s : Slot) (hs : slotOfEvent e = some s) :
+    isSet (subscribe p) e = p.has s := by
+  have he := slotOfEvent_event.mp hs
+  have hr := event_range he
+  rw [has_of_event p he, isSet_eq_getLsbD, subscribe_eq, BitVec.getLsbD_setWidth]
+  have : e - 1 < 32 := by omega
+  simp [this]
+
+example : isSet (subscribe ⟨0b0000000001001#13, true, false, false⟩) 4 = true ∧
+          isSet (subscribe ⟨0b0000000001001#13, true, false, false⟩) 5 = false := by decide
+
+/-- A plugin type without any event handler cannot get a stub — whatever else it implements
+    (Configure, Synchronize, Shutdown) — and this is the only way creation fails. -/
+theorem C15_none (p : Plugin) : p.ev = 0#13 ↔ setupHandlers p = .error .noHandlers := by
+  constructor
+  · intro h
+    exact setup_of_eq ((subscribe_eq_zero_iff p).mpr h)
+  · intro h
+    exact (subscribe_eq_zero_iff p).mp (setup_error h).2
+
+example : setupHandlers ⟨0#13, true, true, true⟩ = .error .noHandlers := by rfl
+
+/-- With at least one event handler creation succeeds; the stub's mask is `subscribe p` and
+    every slot of the handler table is bound to the plugin's own method for that slot
+    exactly when the plugin implements it. -/
+theorem C15_table (p : Plugin) (h : p.ev ≠ 0#13) :
+    ∃ hd, setupHandlers p = .ok hd ∧ hd.events = subscribe p ∧
+      ∀ s, hd.bound s = if p.has s = true then some s else none := by
+  have hne : subscribe p ≠ 0#32 := fun hz => h ((subscribe_eq_zero_iff p).mp hz)
+  exact ⟨_, setup_of_ne hne, events_of_new (setup_of_ne hne), bound_of_new (setup_of_ne hne)⟩
+
+example : (0b1000000000000#13 : BitVec 13) ≠ 0#13 := by decide
+
+/-- Configuration. Without a `Configure` method the stub answers with its own mask and calls
+    nothing. Otherwise the method is called exactly once with the configuration, runtime name
+    and version the runtime sent, and: its error is passed on; an empty mask means "all I
+    implement"; a mask within the implemented set is returned as asked; a mask naming any
+    event without a handler is refused, naming the offending bits. -/
+theorem C15_configure {β : Type} (p : Plugin) (hd : Handlers) (hnew : setupHandlers p = .ok hd)
+    (b : Behaviour β) (c r v : Str) :
+    configure hd b c r v =
+      if p.configure = true then
+        let a : Args β := .config c r v
+        let asked := b .configure a
+        ([⟨.configure, a⟩],
+          match asked.err with
+          | some msg => .error (.handler msg)
+          | none =>
+            if asked.events = 0#32 then .ok (subscribe p)
+            else if asked.events &&& ~~~subscribe p = 0#32 then .ok asked.events
+            else .error (.unhandled (asked.events &&& ~~~subscribe p)))
+      else ([], .ok (subscribe p)) := by
+  have hb := bound_of_new hnew .configure
+  have he := events_of_new hnew
+  cases hp : p.configure with
+  | false =>
+    have : p.has .configure = false := hp
+    simp [configure, hb, this, he]
+  | true =>
+    have : p.has .configure = true := hp
+    simp only [configure, hb, this, if_true]
+    cases herr : (b Slot.configure (Args.config c r v)).err with
+    | some msg => simp
+    | none =>
+      simp only [clamp, he]
+      by_cases hz : (b Slot.configure (Args.config c r v)).events = 0#32
+      · simp [hz]
+      · by_cases hx : (b Slot.configure (Args.config c r v)).events &&& ~~~subscribe p = 0#32
+        · simp [hz, hx]
+        · simp [hz, hx]
+
+example : (configure (β := Nat) (setupOrder.foldl (setupStep ⟨0b11#13, true, false, false⟩) Handlers.empty)
+            (fun _ _ => { events := 0b100#32 }) [] [] []).2 = .error (.unhandled 0b100#32) := by rfl
+
+/-- Whatever the plugin asks for, a successful configuration answers with a non-empty mask
+    that lies within the implemented events: every subscribed event has a handler. (A zero
+    answer would be read by the runtime as "everything".) -/
+theorem C15_configure_sound {β : Type} (p : Plugin) (hd : Handlers) (hnew : setupHandlers p = .ok hd)
+    (b : Behaviour β) (c r v : Str) (m : Mask) (hm : (configure hd b c r v).2 = .ok m) :
+    m ≠ 0#32 ∧ m &&& ~~~subscribe p = 0#32 ∧
+      ∀ e, 1 ≤ e → isSet m e = true → e ≤ 13 ∧ p.ev.getLsbD (e - 1) = true := by
+  have hne := (setup_ok hnew).2
+  have key : m ≠ 0#32 ∧ m &&& ~~~subscribe p = 0#32 := by
+    rw [C15_configure p hd hnew] at hm
+    by_cases hp : p.configure = true
+    · simp only [hp, if_true] at hm
+      cases herr : (b Slot.configure (Args.config c r v)).err with
+      | some msg => simp [herr] at hm
+      | none =>
+        simp only [herr] at hm
+        by_cases hz : (b Slot.configure (Args.config c r v)).events = 0#32
+        · simp only [hz, if_true] at hm
+          injection hm with hm; subst hm
+          exact ⟨hne, by simp⟩
+        · by_cases hx : (b Slot.configure (Args.config c r v)).events &&& ~~~subscribe p = 0#32
+          · simp only [hz, hx, if_true, if_false] at hm
+            injection hm with hm; subst hm
+            exact ⟨hz, hx⟩
+          · simp [hz, hx] at hm
+    · simp only [hp] at hm
+      injection hm with hm; subst hm
+      exact ⟨hne, by simp⟩
+  refine ⟨key.1, key.2, ?_⟩
+  intro e h1 hset
+  apply (C15_mask p e h1).mp
+  rw [isSet_eq_getLsbD] at hset ⊢
+  have := congrArg (fun v => BitVec.getLsbD v (e - 1)) key.2
+  simp only [BitVec.getLsbD_and, BitVec.getLsbD_not, hset, Bool.true_and, BitVec.getLsbD_zero] at this
+  have hlt : e - 1 < 32 := BitVec.lt_of_getLsbD hset
+  simpa [hlt] using this
+
+/-- … and the runtime side of NRI (`(*plugin).configure`, model `Registration.configureMask`)
+    accepts that answer and stores exactly it: what the runtime will relay is what the stub
+    announced. -/
+theorem C15_runtime_view {β : Type} (p : Plugin) (hd : Handlers) (hnew : setupHandlers p = .ok hd)
+    (b : Behaviour β) (c r v : Str) (m : Mask) (hm : (configure hd b c r v).2 = .ok m) :
+    Registration.configureMask m = .ok m := by
+  obtain ⟨hne, _, hall⟩ := C15_configure_sound p hd hnew b c r v m hm
+  have hv : m &&& ~~~valid = 0#32 := by
+    rw [and_not_valid_eq_zero_iff]
+    intro i hi
+    have h13 : i + 1 ≤ 13 := (hall (i + 1) (Nat.le_add_left 1 i) (by rw [isSet_eq_getLsbD]; simpa using hi)).1
+    omega
+  simp [Registration.configureMask, hne, hv]
+
+/-- Dispatch. For each of the thirteen events, the request the runtime sends for it invokes
+    exactly one plugin method — the one for that event, with exactly the parts of the message
+    that handler is to receive — if the plugin type implements it, and nothing otherwise.
+    This does not depend on what was subscribed at configuration time. -/
+theorem C15_dispatch {β : Type} (p : Plugin) (hd : Handlers) (hnew : setupHandlers p = .ok hd)
+    (b : Behaviour β) (d : Dyn β) (e : Nat) (s : Slot) (hs : slotOfEvent e = some s) (m : Msg β) :
+    (dispatch hd b d (requestFor e m)).calls =
+      if p.has s = true then [⟨s, argsFor e m⟩] else [] := by
+  rw [dispatch_event hnew b d hs m]
+  split <;> rfl
+
+example : (dispatch (β := Nat) (setupOrder.foldl (setupStep ⟨0b1000000000#13, false, false, false⟩) Handlers.empty)
+            (fun _ _ => {}) {} (requestFor 10 ⟨some 1, some 2, some 3, some 4⟩)).calls =
+          [⟨.stopContainer, .podCtr (some 1) (some 2)⟩] := by decide
+
+/-- Pass-through. The runtime sees the handler's adjustment and updates exactly as returned,
+    or — when the handler fails — its error and nothing else; without a handler it sees the
+    empty reply. -/
+theorem C15_passthrough {β : Type} (p : Plugin) (hd : Handlers) (hnew : setupHandlers p = .ok hd)
+    (b : Behaviour β) (d : Dyn β) (e : Nat) (s : Slot) (hs : slotOfEvent e = some s) (m : Msg β) :
+    (dispatch hd b d (requestFor e m)).result =
+      if p.has s = true then
+        match (b s (argsFor e m)).err with
+        | some msg => .error (.handler msg)
+        | none => .ok (replyFor e (b s (argsFor e m)))
+      else .ok (emptyReplyFor e) := by
+  rw [dispatch_event hnew b d hs m]
+  split
+  · cases herr : (b s (argsFor e m)).err <;> simp [reply, herr]
+  · rfl
+
+example : (dispatch (β := Nat) (setupOrder.foldl (setupStep ⟨0b1000#13, false, false, false⟩) Handlers.empty)
+            (fun _ _ => { adjust := some 7, updates := [8, 9] }) {} (requestFor 4 ⟨some 1, some 2, none, none⟩)).result =
+          .ok (.createContainer (some 7) [8, 9]) := by rfl
+
+/-- A `StateChange` notification carrying anything but one of the nine notification events
+    (the unknown event 0, numbers beyond the last, or one of the four request-type events that
+    have their own RPC) invokes nothing and is answered with an empty reply. -/
+theorem C15_foreign_event {β : Type} (hd : Handlers) (b : Behaviour β) (d : Dyn β) (e : Nat)
+    (pod ctr : Option β)
+    (he : e = 0 ∨ e = 4 ∨ e = 8 ∨ e = 10 ∨ e = 12 ∨ 14 ≤ e) :
+    (dispatch hd b d (.stateChange e pod ctr)).calls = [] ∧
+    (dispatch hd b d (.stateChange e pod ctr)).result = .ok .stateChange := by
+  have : stateChange hd b d e pod ctr = ⟨[], .ok .stateChange, d⟩ := by
+    unfold stateChange
+    split <;> first | omega | rfl
+  simp [dispatch, this]
+
+/-- Dispatch never touches the stub's mutable state, except Configure (timeouts) and
+    Synchronize (collected chunks). -/
+theorem C15_dispatch_pure {β : Type} (p : Plugin) (hd : Handlers) (hnew : setupHandlers p = .ok hd)
+    (b : Behaviour β) (d : Dyn β) (e : Nat) (s : Slot) (hs : slotOfEvent e = some s) (m : Msg β) :
+    (dispatch hd b d (requestFor e m)).dyn = d := by
+  rw [dispatch_event hnew b d hs m]
+  split <;> rfl
+
+/-- Split synchronisation: however the runtime cuts the state into `More` chunks, the plugin's
+    `Synchronize` is invoked exactly once, with all pods and all containers in the order sent,
+    when the final chunk arrives; the chunks before it are acknowledged with `More` and no
+    updates; the final reply carries the handler's updates or error; nothing stays collected. -/
+theorem C15_sync {β : Type} (p : Plugin) (hd : Handlers) (hnew : setupHandlers p = .ok hd)
+    (hp : p.synchronize = true) (b : Behaviour β) (d : Dyn β) (hd0 : d.syncReq = none)
+    (chunks : List (List β × List β)) (pods ctrs : List β) :
+    let reqs := chunks.map (fun c => Request.synchronize c.1 c.2 true) ++ [Request.synchronize pods ctrs false]
+    let a : Args β := .sync (podsOf chunks ++ pods) (ctrsOf chunks ++ ctrs)
+    let outs := run hd b d reqs
+    (outs.map (·.calls)).flatten = [⟨.synchronize, a⟩] ∧
+    outs.length = chunks.length + 1 ∧
+    (∀ o ∈ outs.take chunks.length, o.result = .ok (.synchronize [] true)) ∧
+    (outs.getLast?.map (·.result)) = some (reply (b .synchronize a) (.synchronize (b .synchronize a).updates false)) ∧
+    (outs.getLast?.map (·.dyn.syncReq)) = some none := by
+  intro reqs a outs
+  have hm : hd.bound .synchronize = some .synchronize := by
+    rw [bound_of_new hnew]; simp [Plugin.has, hp]
+  obtain ⟨d', hall, hrun, hnil, hne, _, _⟩ :=
+    run_collect hd b .synchronize hm chunks [Request.synchronize pods ctrs false] d
+  have hacc : accumulate d'.syncReq pods ctrs = (podsOf chunks ++ pods, ctrsOf chunks ++ ctrs) := by
+    by_cases hc : chunks = []
+    · subst hc; rw [hnil rfl, hd0]; simp [accumulate, podsOf, ctrsOf]
+    · rw [hne hc, hd0]; simp [accumulate, accOf]
+  have hlast : run hd b d' [Request.synchronize pods ctrs false] =
+      [⟨[⟨.synchronize, a⟩], reply (b .synchronize a) (.synchronize (b .synchronize a).updates false),
+        { d' with syncReq := none }⟩] := by
+    simp [run, dispatch, synchronize, hm, hacc, a]
+  have hlen : (run hd b d (chunks.map (fun c => Request.synchronize c.1 c.2 true))).length = chunks.length := by
+    have : ∀ (d : Dyn β) (l : List (Request β)), (run hd b d l).length = l.length := by
+      intro d l
+      induction l generalizing d with
+      | nil => rfl
+      | cons r rs ih => simp [run, ih]
+    rw [this]; simp
+  have houts : outs = run hd b d (chunks.map (fun c => Request.synchronize c.1 c.2 true)) ++
+      [⟨[⟨.synchronize, a⟩], reply (b .synchronize a) (.synchronize (b .synchronize a).updates false),
+        { d' with syncReq := none }⟩] := by
+    simp only [outs, reqs]; rw [hrun, hlast]
+  refine ⟨?_, ?_, ?_, ?_, ?_⟩
+  · rw [houts, List.map_append, List.flatten_append]
+    have : ((run hd b d (chunks.map (fun c => Request.synchronize c.1 c.2 true))).map (·.calls)).flatten = [] := by
+      rw [List.flatten_eq_nil_iff]
+      intro l hl
+      obtain ⟨o, ho, rfl⟩ := List.mem_map.mp hl
+      exact (hall o ho).1
+    rw [this]; simp
+  · rw [houts, List.length_append, hlen]; rfl
+  · intro o ho
+    rw [houts, List.take_append_of_le_length (by omega), ← hlen, List.take_length] at ho
+    exact (hall o ho).2
+  · rw [houts]; simp
+  · rw [houts]; simp
+
+example : (run (β := Nat) (setupOrder.foldl (setupStep ⟨1#13, false, true, false⟩) Handlers.empty)
+            (fun _ _ => {}) {} [.synchronize [1] [10] true, .synchronize [2] [] true, .synchronize [] [11] false]).map (·.calls) =
+          [[], [], [⟨.synchronize, .sync [1, 2] [10, 11]⟩]] := by decide
+
+/-- Without a `Synchronize` method every chunk is acknowledged by echoing `More`, with no
+    updates and no call. -/
+theorem C15_sync_none {β : Type} (p : Plugin) (hd : Handlers) (hnew : setupHandlers p = .ok hd)
+    (hp : p.synchronize = false) (b : Behaviour β) (d : Dyn β) (pods ctrs : List β) (more : Bool) :
+    (dispatch hd b d (.synchronize pods ctrs more)).calls = [] ∧
+    (dispatch hd b d (.synchronize pods ctrs more)).result = .ok (.synchronize [] more) ∧
+    (dispatch hd b d (.synchronize pods ctrs more)).dyn = d := by
+  have hm : hd.bound .synchronize = none := by
+    rw [bound_of_new hnew]; simp [Plugin.has, hp]
+  simp [dispatch, synchronize, hm]
+
+/-- Shutdown invokes the plugin's `Shutdown` once if there is one, and always succeeds. -/
+theorem C15_shutdown {β : Type} (p : Plugin) (hd : Handlers) (hnew : setupHandlers p = .ok hd)
+    (b : Behaviour β) (d : Dyn β) :
+    (dispatch hd b d .shutdown).calls = (if p.shutdown = true then [⟨.shutdown, .none⟩] else []) ∧
+    (dispatch hd b d .shutdown).result = .ok .shutdown := by
+  have hb := bound_of_new hnew .shutdown
+  cases hp : p.shutdown with
+  | false => have : p.has .shutdown = false := hp; simp [dispatch, hb, this]
+  | true => have : p.has .shutdown = true := hp; simp [dispatch, hb, this]
+
 end Nri.Props.C15
